@@ -122,42 +122,44 @@ structure Spec where
   length : Nat
   /-- the bytes of the message, as listeners must see them, when the outcome is `ok` -/
   notified : Bytes
+  /-- what follows the message in `w.bytes` (surplus), when the outcome is `ok` -/
+  rest : Bytes
   /-- the connection is not to be reused (`Connection: close`, HTTP/1.0, no keep-alive) -/
   close : Bool
   deriving DecidableEq, Repr
 
 def specOf (w : Wire) (o : Outcome) (nt rest : Bytes) (close : Bool) : Spec :=
-  { outcome := o, length := w.bytes.length - rest.length, notified := nt, close := close }
+  { outcome := o, length := w.bytes.length - rest.length, notified := nt, rest := rest, close := close }
+
+def finishSpec {D} (dc : Decoder D) (w : Wire) (st : Status) (f : Fields) (sc : Bool) (b : BodyS D) : Spec :=
+  match b with
+  | .exc e => specOf w (.exc e) [] [] true
+  | .stall => specOf w .stalled [] [] false
+  | .ok a r' =>
+    match a.flush dc with
+    | .error e => specOf w (.exc e) [] [] true
+    | .ok a' => specOf w (.ok st f a'.body) a'.notified r' sc
+
+def finishChunkedSpec {D} (w : Wire) (st : Status) (f : Fields) (sc : Bool) (b : ChunksS D) : Spec :=
+  match b with
+  | .exc e => specOf w (.exc e) [] [] true
+  | .stall => specOf w .stalled [] [] false
+  | .ok a t r' =>
+    match parseFields true f t with
+    | none => specOf w (.exc .ValueError) [] [] true
+    | some f' => specOf w (.ok st f' a.body) a.notified r' sc
 
 def specBody {D} (dc : Decoder D) (cfg : StreamCfg) (req : ReqInfo) (fuel : Nat)
     (st : Status) (f : Fields) (r : Bytes) (nt : Bytes) (w : Wire) : Spec :=
   let a0 : Acc D := { notified := nt, body := [], dec := (decKind f).map dc.init }
-  let strat := match readStrategy f with
-    | .length => if cfg.ignoreLength then Strategy.close else .length
-    | s => s
   let sc := !cfg.keepAlive || shouldClose req.version (f.get? sConnection)
-  let finish (b : BodyS D) : Spec :=
-    match b with
-    | .exc e => specOf w (.exc e) [] [] true
-    | .stall => specOf w .stalled [] [] false
-    | .ok a r' =>
-      match a.flush dc with
-      | .error e => specOf w (.exc e) [] [] true
-      | .ok a' => specOf w (.ok st f a'.body) a'.notified r' sc
-  match strat with
-  | .chunked =>
-    match specChunked dc fuel fuel r w.eof a0 with
-    | .exc e => specOf w (.exc e) [] [] true
-    | .stall => specOf w .stalled [] [] false
-    | .ok a t r' =>
-      match parseFields true f t with
-      | none => specOf w (.exc .ValueError) [] [] true
-      | some f' => specOf w (.ok st f' a.body) a.notified r' sc
+  match bodyStrategy cfg f with
+  | .chunked => finishChunkedSpec w st f sc (specChunked dc fuel fuel r w.eof a0)
   | .length =>
     match contentLength? ((f.get? sContentLength).getD []) with
-    | none => finish (specClose dc r w.eof a0)
-    | some n => finish (specLength dc n r w.eof a0)
-  | .close => finish (specClose dc r w.eof a0)
+    | none => finishSpec dc w st f sc (specClose dc r w.eof a0)
+    | some n => finishSpec dc w st f sc (specLength dc n r w.eof a0)
+  | .close => finishSpec dc w st f sc (specClose dc r w.eof a0)
 
 /-- The specification: outcome, message length, message bytes — no notion of reads. -/
 def rfc {D} (dc : Decoder D) (cfg : StreamCfg) (req : ReqInfo) (w : Wire) : Spec :=
